@@ -49,6 +49,11 @@ func refactorSpecials(r *Rng) []refactorSpecial {
 	add("commute-loop-bounds",
 		fmt.Sprintf("func Bounds(a, b int, xs []int) int {\n\tt := 0\n\tfor k := a & 7; k > 0; k -= 2 {\n\t\tt += k\n\t}\n\tfor i := b | 1; i < (a+b)*%d; i += 3 {\n\t\tt ^= i\n\t}\n\tfor j := 0; j < (len(xs) ^ b); j++ {\n\t\tt += j * a\n\t}\n\treturn t\n}\n", k2),
 		fmt.Sprintf("func Bounds(a, b int, xs []int) int {\n\tt := 0\n\tfor k := 7 & a; k > 0; k -= 2 {\n\t\tt += k\n\t}\n\tfor i := 1 | b; i < %d*(b+a); i += 3 {\n\t\tt ^= i\n\t}\n\tfor j := 0; j < (b ^ len(xs)); j++ {\n\t\tt += a * j\n\t}\n\treturn t\n}\n", k2), nil)
+	// opposite test with exchanged branches, a counted loop in BOTH arms whose bounds are locally computed
+	// values: the order in which the arms are written must not decide which value is named first
+	add("flip-with-loops-in-both-arms",
+		fmt.Sprintf("func Arms(a, b int, xs []int, s string) int {\n\tt := 0\n\tif a >= b {\n\t\tfor i := len(xs) - 1; i >= 0; i-- {\n\t\t\tt += xs[i] * %d\n\t\t}\n\t} else {\n\t\tfor j := len(s); j < b; j += 2 {\n\t\t\tt ^= j\n\t\t}\n\t}\n\treturn t\n}\n", k2),
+		fmt.Sprintf("func Arms(a, b int, xs []int, s string) int {\n\tt := 0\n\tif a < b {\n\t\tfor j := len(s); j < b; j += 2 {\n\t\t\tt ^= j\n\t\t}\n\t} else {\n\t\tfor i := len(xs) - 1; i >= 0; i-- {\n\t\t\tt += xs[i] * %d\n\t\t}\n\t}\n\treturn t\n}\n", k2), nil)
 	// labels, loop variables and the function itself renamed
 	add("rename-labels",
 		fmt.Sprintf("func Grid(n, m int) int {\n\tt := 0\nouter:\n\tfor i := 0; i < n; i++ {\n\t\tfor j := 0; j < m; j++ {\n\t\t\tif i*j > %d {\n\t\t\t\tcontinue outer\n\t\t\t}\n\t\t\tif i+j > %d {\n\t\t\t\tbreak outer\n\t\t\t}\n\t\t\tt += i ^ j\n\t\t}\n\t}\n\treturn t\n}\n", k, k*3),
